@@ -254,7 +254,7 @@ package ledger
 //@   ensures forall h Store :: {writes[h]} {old(writes)[h]} h != store ==> writes[h] == old(writes)[h]
 //@   ensures err == nil ==> r != nil
 //@   ensures schema != nil && len(schema.Transactions) > 0 && parameters.Input.Template == "" && ctrl.schemaEnforcementMode == "strict" ==> isErr(err, ErrSchemaValidationError) && writes == old(writes)
-//@   ensures schema != nil && len(schema.Transactions) > 0 && !has(schema.Transactions, parameters.Input.Template) ==> isErr(err, ErrSchemaValidationError) && writes == old(writes)
+//@   ensures schema != nil && len(schema.Transactions) > 0 && parameters.Input.Template != "" && !has(schema.Transactions, parameters.Input.Template) ==> isErr(err, ErrSchemaValidationError) && writes == old(writes)
 //@   ensures (schema == nil || len(schema.Transactions) == 0) && parameters.Input.Template != "" ==> isErr(err, ErrSchemaValidationError) && writes == old(writes)
 //@   ensures err == nil ==> r.Transaction.Template == parameters.Input.Template
 //@   ensures schema != nil && len(schema.Transactions) > 0 && parameters.Input.Template == "" && ctrl.schemaEnforcementMode != "strict" ==> parseCalls == old(parseCalls) + 1 && lastParsed == parameters.Input.Plain
